@@ -48,14 +48,22 @@ PROVISIONAL_KNOWN = {
                 "Krylov space is exhausted earlier is normalised by its (zero or rounding-level) residual norm: "
                 "0/0 = NaN columns when the residual is exactly zero, a normalised rounding-noise column otherwise; "
                 "that member's Q is no Krylov basis and its T has spurious Ritz values"},
-    "breakdown-undetected-below-rounding": {
-        "property": "C14", "clause": "breakdown-undetected-below-rounding",
+    "eigenvector-start-undetected": {
+        "property": "C14", "clause": "eigenvector-start-undetected",
         "call_site": "cola/linalg/decompositions/lanczos.py lanczos_fact.cond_fun (subdiag[i-1] > tol * subdiag[1])",
-        "what": "the exit test is relative to beta_1 only: when the start vector is (numerically) an eigenvector "
-                "beta_1 itself is rounding noise and `beta_1 > tol * beta_1` holds, and when tol * beta_1 is below the "
-                "rounding level (tol = 0, tiny tol) an exhausted Krylov space leaves a non-zero rounding residue; "
-                "Lanczos then continues with a normalised noise vector up to min(max_iters, n) columns: the columns "
-                "leave the Krylov space and T contains Ritz values that are no eigenvalues of A"},
+        "what": "the exit test is relative to beta_1 only: when the start vector is (numerically) an eigenvector, beta_1 "
+                "itself is a rounding residue and `beta_1 > tol * beta_1` holds for every tol < 1 (default 1e-7 included), "
+                "so the exhausted Krylov space is not detected; Lanczos continues with the normalised rounding residue up "
+                "to min(max_iters, n) columns: the columns leave K(A, v) (dimension 1), T contains Ritz values that are no "
+                "eigenvalues of A, and on matrices with exact block structure the extra columns are not even orthogonal"},
+    "tol-below-rounding": {
+        "property": "C14", "clause": "tol-below-rounding",
+        "call_site": "cola/linalg/decompositions/lanczos.py lanczos_fact.cond_fun (subdiag[i-1] > tol * subdiag[1])",
+        "what": "tolerances below the rounding level (tol = 0, 1e-14, ...): an exhausted Krylov space leaves a non-zero "
+                "rounding residue beta_j ~ 1e-16 ||A|| > tol * beta_1, the loop does not stop and normalises the residue; "
+                "the following columns are rounding noise (no Krylov basis, spurious Ritz values, not orthogonal on "
+                "matrices with exact block structure). In exact arithmetic (the theorems) the residue is 0 and the loop "
+                "stops for every tol >= 0"},
 }
 
 THETA = 1e-5     # numerical breakdown: beta_j <= THETA * ||A||
@@ -63,6 +71,7 @@ ETA = 1e-9       # margin (relative to ||A||) for a determined exit decision
 AMP_MAX = 1e4    # accumulated amplification beyond which columns are not compared
 CMP_TOL = 1e-8   # relative comparison tolerance real vs model
 SPEC_TOL = 1e-8  # tolerance of the spec oracle (relative to ||A||, entries of unit vectors)
+MAX_VIOLATION_LINES = 5   # further failing inputs of the same run are counted, not written
 
 
 # ----------------------------------------------------------------------------------------------
@@ -458,6 +467,8 @@ def oracle_eigs(c, A, s, real, k_cap):
     k = Q.shape[1]
     if ev.shape != (k,) or V.shape != (c["n"], k):
         return [("eigs-shape", f"eigvals {ev.shape} eigvecs {V.shape} k={k}")]
+    if k == 0:
+        return [("eigs-empty", "no Ritz pair returned")]
     if not (np.all(np.isfinite(ev)) and np.all(np.isfinite(V))):
         return [("eigs-non-finite", "")]
     if np.abs(np.imag(ev)).max() > SPEC_TOL * st:
@@ -495,10 +506,11 @@ def analyse_model(c, s, M):
     beta = [np.real(mem["sub_full"]) for mem in M["members"]]     # index 0..m
     pb = [None] * B          # step of the numerical breakdown (columns 1..pb determined)
     amp = [1.0] * B
-    info = {"determined_cols": [m] * B, "breakdown": [None] * B}
+    info = {"determined_cols": [m] * B, "breakdown": [None] * B, "own_small_at_breakdown": [False] * B}
     decision_undetermined_at = None
     exit_at = None
-    for j in range(1, m + 1):
+    decided = False
+    for j in range(1, min(m, M["iters"]) + 1):   # the steps the model executed
         # member status at step j
         large_det, small_det = [], []
         for b in range(B):
@@ -516,26 +528,30 @@ def analyse_model(c, s, M):
             thr = tol * b1
             eta = ETA * st * amp[b]
             large_det.append(bj - thr > eta)
-            small_det.append(thr - bj > eta or (bj == 0.0 and thr == 0.0 and False))
+            small_det.append(thr - bj > eta)
             if bj <= THETA * st:
                 pb[b] = j
                 info["breakdown"][b] = j
+                info["own_small_at_breakdown"][b] = bool(thr - bj > eta)
                 info["determined_cols"][b] = j
             else:
                 amp[b] *= max(1.0, 0.1 * st / bj)
                 if amp[b] > AMP_MAX:
                     pb[b] = j
                     info["determined_cols"][b] = j
+        if decided:
+            continue            # keep walking only to record the members' breakdown steps
         if j == m:
             exit_at = m
-            break
-        if any(large_det):
-            continue
-        if all(small_det):
+            decided = True
+        elif any(large_det):
+            pass
+        elif all(small_det):
             exit_at = j
-            break
-        decision_undetermined_at = j
-        break
+            decided = True
+        else:
+            decision_undetermined_at = j
+            decided = True
     info["exit_at"] = exit_at
     info["undetermined_at"] = decision_undetermined_at
     return info
@@ -599,6 +615,16 @@ def norm2(A):
 
 
 def evaluate(c, real, ans):
+    """three-way verdict for one case; an exception while judging malformed outputs is a spec failure"""
+    try:
+        return evaluate_(c, real, ans)
+    except Exception as ex:  # noqa: BLE001  (outputs of unexpected shape / type)
+        import traceback
+        return {"id": c["id"], "status": "spec-fail", "mismatch": [], "clauses": set(), "stats": {},
+                "spec_fails": [(0, "malformed-output", f"{type(ex).__name__}: {ex}; {traceback.format_exc()[-600:]}")]}
+
+
+def evaluate_(c, real, ans):
     """three-way verdict for one case.  returns dict(status, ...)"""
     A = c["A"]
     s = norm2(A)
@@ -648,11 +674,13 @@ def evaluate(c, real, ans):
                 attributable = False
                 res["spec_fails"] += [(b, "prefix:" + f, d) for f, d in pf]
                 break
-            others_large = any(cinfo["breakdown"][o] is None or cinfo["breakdown"][o] > bd for o in range(B) if o != b)
-            if B > 1 and others_large:
+            if B > 1 and cinfo["own_small_at_breakdown"][b]:
+                # this member was determinately below its threshold: the loop went on because of the others
                 res["clauses"].add("batch-member-breakdown")
+            elif bd == 1:
+                res["clauses"].add("eigenvector-start-undetected")
             else:
-                res["clauses"].add("breakdown-undetected-below-rounding")
+                res["clauses"].add("tol-below-rounding")
         if not attributable:
             res["clauses"] = set()
     if res["spec_fails"]:
@@ -702,7 +730,7 @@ def run(ctx):
         cases[0]["id"] = 0
         big = []
     else:
-        N = 900 if not ctx.thorough else 12000
+        N = 2500 if not ctx.thorough else 12000
         nmax = 12
         cases = [gen_case(rng, i, nmax) for i in range(N)]
         if ctx.thorough:
@@ -719,11 +747,13 @@ def run(ctx):
     outcomes = {"ok": 0, "modelled-defect": 0, "spec-fail": 0, "real-ne-model": 0, "model-error": 0}
     dist = {"n": {}, "cap_vs_n": {"below": 0, "equal": 0, "above": 0}, "early_termination": 0, "batch_sizes": {},
             "complex": 0, "real": 0, "spectra": {}, "start_kinds": {}, "tol": {}, "undetermined_exit": 0,
-            "numerical_breakdown_cases": 0, "eigs_checked": 0, "columns_compared": 0, "rank_tested_columns": 0}
+            "numerical_breakdown_cases": 0, "eigs_checked": 0, "columns_compared": 0, "rank_tested_columns": 0,
+            "clauses": {}}
     sigs = set()
     samples = []
     nontrivial = 0
     first_mismatch = None
+    suppressed = 0
     t0 = time.time()
     for c in cases:
         do_eigs = not c["batch"]
@@ -765,9 +795,14 @@ def run(ctx):
         # verdict
         if res["status"] == "modelled-defect":
             for cl in sorted(res["clauses"]):
+                dist["clauses"][cl] = dist["clauses"].get(cl, 0) + 1
+            for cl in sorted(res["clauses"]):
                 entry = known.get(cl) or provisional.get(cl)
                 if entry is None:
-                    common.violation(ctx, payload(c, res, real))
+                    if len(ctx.violations) < MAX_VIOLATION_LINES:
+                        common.violation(ctx, payload(c, res, real))
+                    else:
+                        suppressed += 1
                     break
                 tag = "" if cl in known else " [PROVISIONAL, not yet in known_findings.json]"
                 b0, f0, d0 = res["spec_fails"][0]
@@ -778,7 +813,10 @@ def run(ctx):
                     path = common.write_replay(ctx, dict(payload(c, res, real), known_finding=cl))
                     ctx.notes.append({"clause": cl, "replay": path})
         elif res["status"] == "spec-fail":
-            common.violation(ctx, payload(c, res, real))
+            if len(ctx.violations) < MAX_VIOLATION_LINES:
+                common.violation(ctx, payload(c, res, real))
+            else:
+                suppressed += 1
         elif res["status"] in ("real-ne-model", "model-error"):
             if first_mismatch is None:
                 first_mismatch = (c, res, real)
@@ -834,6 +872,7 @@ def run(ctx):
         "distributions": dist,
         "samples": samples,
         "known_findings_seen": [list(k) for k in ctx.known],
+        "violations_not_written": suppressed,
         "provisional_known": sorted(provisional),
         "finding_replays": ctx.notes,
         "timing_s": {"lean_gate": round(t_gate, 1), "model": round(t_model, 1), "real_and_oracle": round(t_real, 1)},
